@@ -25,11 +25,12 @@ Proof.
   assert (H1 : forall c' sh ts l ev, exists evs', c_trace (commit c' t sh ts l [ev]) = evs' ++ c_trace c' /\
        (evs' = [] \/ (exists ev, evs' = [ev]) \/ (exists r d o, evs' = [ERet t r d; ECall t o]))) by (intros; apply Hcm; right; left; eauto).
   unfold step.
-  destruct (t_pc (c_pool c t)) as [|q|q b|q b|q b got|q b got|q b got|q b got| |hm|hm].
+  destruct (t_pc (c_pool c t)) as [|q|q b|q b|q b|q b got|q b got|q b got|q b got| |hm|hm].
   - destruct (t_todo (c_pool c t)); [exists []; auto|]. unfold call. destruct (call_res e (c_pool c t) o); apply Hcm; [right; left; eauto|right; right; eauto].
   - destruct (e_kind e); first [apply Hfin|apply H0].
   - destruct (s_f (c_sh c)); first [apply Hfin|apply H0].
   - destruct (b =? s_y (c_sh c)); [apply H0|]. destruct (b <? s_y (c_sh c)); first [apply Hfin|apply H0].
+  - destruct (s_f (c_sh c)); first [apply Hfin|apply H0].
   - destruct (crashes_now e (c_sh c)); [apply H0|].
     destruct (q_mode q), (src_next e (c_sh c)); try apply H0;
       try (destruct (N.of_nat (length (n :: got)) =? q_n q); apply H0);
